@@ -206,6 +206,79 @@ def check_update(rep, db, N, B, via_watch):
     return viol, len(res)
 
 
+def long_batch_size(db):
+    """a batch longer than every small integer constant that occurs in the address-book code (chunk sizes, caps): constants are
+    read from the MIR of the bodies defined in gossip/validator_addrs.rs, so a batch-size boundary introduced there is crossed"""
+    import json, re as _re
+    best = 4
+    try:
+        for line in open(db.prefix + f'.{NETC}.jsonl'):
+            if not _re.search(r'"name":"[^"]*gossip::validator_addrs::[^"]*","(rec|resolved)', line[-700:]) and 'gossip/validator_addrs.rs' not in line[-400:]: continue
+            if not line.rstrip().endswith(('"rec":"fn"}', '"rec":"inst"}')) and '"rec":"fn"' not in line[-200:]: continue
+            m = _re.search(r'"consts":(\{[^{}]*(?:\{[^{}]*\}[^{}]*)*\})', line)
+            if not m: continue
+            for c in _re.findall(r'"int":"(\d+)"', m.group(1)):
+                c = int(c)
+                if 2 <= c <= 40: best = max(best, c)
+    except Exception:
+        pass
+    return best + 2
+
+
+def check_long_batch(rep, db, B):
+    """a batch of B announcements of B distinct members over an empty book, all authentic except ONE at a symbolic position (a forged
+    signature, or the last entry repeating the first key): rejected, and the PUBLISHED book stays empty wherever the bad entry
+    sits — in particular behind any internal batching boundary; an entirely authentic batch of B is stored completely"""
+    ex = Exec(db, loop_bound=4 * B + 12)
+    ex.hash_order_insertion = True
+    install(ex, db)
+    mkn = Mk(db, NETC); mkr = Mk(db, 'zksync_consensus_roles')
+
+    def body(ex):
+        ws = [ex.fresh(f'w{i}') for i in range(B)]
+        for w in ws: ex.assume(w.e >= 1)
+        sched, total = c02.mk_schedule(ex, mkr, ws)
+        case = ex.choose(B + 2, 'bad_position')          # 0..B-1: forged entry there; B: last entry repeats the first key; B+1: all good
+        batch = []
+        for j in range(B):
+            ki = 0 if (case == B and j == B - 1) else j
+            batch.append(Ann(ex, mkn, f'new{j}', ki, valid=(z3.BoolVal(False) if case == j else z3.BoolVal(True))))
+        book = mkn.tuple_struct(r'zksync_consensus_network::gossip::validator_addrs::ValidatorAddrs', MapV([], ordered=False, kind='map'))
+        data = VecV([d.arc for d in batch], 'slice')
+        watch = M.WatchV(book)
+        w_t = mkn.ty(r'zksync_consensus_network::gossip::validator_addrs::ValidatorAddrsWatch')
+        inner_t = db.ty(NETC, w_t['info']['variants'][0]['fields'][0]['ty'])
+        inner = Agg('adt', inner_t, 0, [watch] + [Opaque('x')] * (len(inner_t['info']['variants'][0]['fields']) - 1))
+        vw = Agg('adt', w_t, 0, [inner])
+        key = db.find_one(r'zksync_consensus_network::gossip::validator_addrs::ValidatorAddrsWatch::update', kinds=('fn',))
+        r = coro.run_async(ex, key, [Ref(Cell(vw)), Ref(Cell(sched)), Ref(Cell(data))])
+        return r, case, batch, fld(watch.cell.v, '0')
+    res = explore(ex, body, budget_s=900)
+    rep.absorb_stats(ex.stats)
+    viol = []
+    for kind, val, pc, log in res:
+        if kind == 'panic':
+            st, m = solve(pc, None)
+            if st == 'sat': viol.append((panic_key(val), f'ValidatorAddrsWatch::update panics on a batch of {B}: {val[0]} at {val[1]}', m))
+            continue
+        r, case, batch, post = val
+        if r == 'pending': continue
+        rep.nontrivial += 1
+        st, m = solve(pc, None)
+        if st != 'sat': continue
+        stored = sorted(k.tag[1] for k, c in post.entries)
+        if case <= B:
+            what = f'a forged entry at position {case}' if case < B else 'a repeated key at the last position'
+            if r.variant != 1:
+                viol.append(('address-book:long-batch:accepted', f'a batch of {B} announcements with {what} is accepted', m))
+            elif stored:
+                viol.append(('address-book:long-batch:err', f'a batch of {B} announcements with {what} is rejected, but the published address book already holds the entries of validators {stored} from it (a rejected batch must leave the book unchanged)', m))
+        else:
+            if r.variant != 0 or stored != list(range(B)):
+                viol.append(('address-book:long-batch:ok', f'an authentic batch of {B} announcements of {B} members is not stored completely (result {"Ok" if r.variant == 0 else "Err"}, stored {stored})', m))
+    return viol, len(res)
+
+
 def check_watch_interference(rep, db, N):
     """another writer publishes a strictly newer valid announcement (for a key this batch does not touch) while this
     update waits for the writer lock: whatever this update does afterwards, that announcement must still be published
@@ -319,6 +392,9 @@ def run(rep, db, tier, seed):
     for B in Bs:
         handle(f'ValidatorAddrs::update, batch of {B}', check_update, N, B, False)
         handle(f'ValidatorAddrsWatch::update (published book), batch of {B}', check_update, N, B, True)
+    LB = long_batch_size(db)
+    rep.bounds['long_batch'] = f'{LB} announcements of {LB} distinct members over an empty book, one bad entry at every position (size = largest small integer constant in gossip/validator_addrs.rs + 2)'
+    handle(f'ValidatorAddrsWatch::update, long batch of {LB} with one bad entry at every position', check_long_batch, LB)
     handle('ValidatorAddrsWatch::update with an interfering writer', check_watch_interference, N)
     handle('commutation of two valid announcements', check_commute, N)
     rep.extra['explanation'] = 'one batch applied to an arbitrary authentic address book on the real MIR; all versions, timestamps and signature validities covered by solver verdicts'
